@@ -215,7 +215,7 @@ def main():
     for i, leg in enumerate(legs):
         remaining = budget - (time.time() - t_start - t_build)
         fair = remaining * weights[i] / sum(weights[i:])
-        share = max(2.0, min(remaining - 1.5 * (len(legs) - i - 1), 5.0 * fair))
+        share = max(1.0, min(remaining - 1.0 * (len(legs) - i - 1), 5.0 * fair))
         r = run_leg(prop, leg, a.tier, bins[leg["harness"]], share, known, seed)
         results.append(r)
         res = r["res"] or {}
